@@ -71,6 +71,11 @@ func (i instruction) String() string {
 		as = append(as, rs2.regNum(i.value).String())
 	}
 
+	if bits := i.instrType.shiftImmBits; bits > 0 {
+		shamt := parseBitRange(i.value, 20, 20+bits)
+		as = append(as, fmt.Sprintf("%d", shamt))
+	}
+
 	if imm, ok := i.instrType.immediate.parseValue(i.value); ok {
 		immStr := fmt.Sprintf("%d", imm)
 
@@ -94,6 +99,10 @@ func (i instruction) String() string {
 		} else {
 			as = append(as, immStr)
 		}
+	}
+
+	if i.instrType.hasCSRImm {
+		as = append(as, fmt.Sprintf("%d", parseBitRange(i.value, 15, 20)))
 	}
 
 	return fmt.Sprintf("%s %s", i.instrType.name, strings.Join(as, ", "))
